@@ -28,7 +28,7 @@ def run(ctx):
         require_guard(ctx, f, Cmp(["a2", "call:*ExtendedHeader::chain_id"], ["a1", "call:*ExtendedHeader::chain_id"], pass_op="Eq", name="same chain id"), "C02.verify.chain")
         require_guard(ctx, f, Has("call:*Time::after", "a1", "a2", name="untrusted.time().after(self.time())"), "C02.verify.after")
         require_guard(ctx, f, Has("call:*Time::before", "call:*Time::now", "const:*VERIFY_CLOCK_DRIFT", "a2", name="untrusted.time() before now + drift"), "C02.verify.drift")
-        adj = Cmp(["a1", H], ["a2", H], pass_op="Eq", name="self.height()+1 == untrusted.height()")
+        adj = Cmp(["a1", H, "lit:1"], ["a2", H], pass_op="Eq", name="self.height()+1 == untrusted.height()")
         nv = Cmp(["a2.header.validators_hash"], ["a1.header.next_validators_hash"], pass_op="Eq", name="validators_hash == next_validators_hash")
         par = Cmp(["a2", "call:*ExtendedHeader::last_header_hash"], ["a1", "call:*ExtendedHeader::hash"], pass_op="Eq", name="last_header_hash == self.hash()")
         tr = Has("call:*ValidatorSetExt*::verify_commit_light_trusting", "a1.validator_set", "a2.commit", ["const:*DEFAULT_TRUST_LEVEL", "call:*TrustLevelRatio::new"], name="?verify_commit_light_trusting")
@@ -54,12 +54,13 @@ def run(ctx):
     k = const_value(ctx, T + "extended_header::VERIFY_CLOCK_DRIFT")
     va = ctx.anchor(EH + "verify_adjacent")
     if va:
-        require_guard(ctx, va, Cmp(["a1", "call:*ExtendedHeader::height"], ["a2", "call:*ExtendedHeader::height"], pass_op="Eq", name="self.height()+1 == untrusted.height()"), "C02.adjacent.adj")
+        require_guard(ctx, va, Cmp(["a1", "call:*ExtendedHeader::height", "lit:1"], ["a2", "call:*ExtendedHeader::height"], pass_op="Eq", name="self.height()+1 == untrusted.height()"), "C02.adjacent.adj")
         require_guard(ctx, va, Has("call:*ExtendedHeader::verify", "a1", "a2", name="result of self.verify(untrusted)"), "C02.adjacent.verify")
     vr = ctx.anchor(EH + "verify_range")
     if vr:
         per_iteration(ctx, vr, ["a2"], Has("call:*ExtendedHeader::verify", "a2", name="?trusted.verify(untrusted)"), "C02.range.verify", "every element ?-verified against its predecessor")
-        per_iteration(ctx, vr, ["a2"], Cmp(["call:*ExtendedHeader::height"], ["call:*ExtendedHeader::height", "a2"], name="consecutive heights inside the list"), "C02.range.adjacent", "every non-first element is adjacent to its predecessor")
+        per_iteration(ctx, vr, ["a2"], Cmp(["call:*ExtendedHeader::height", "lit:1"], ["call:*ExtendedHeader::height", "a2"], pass_op="Eq", name="previous.height() + 1 == current.height() inside the list"), "C02.range.adjacent", "every non-first element is adjacent to its predecessor",
+                      nonfirst=Cmp(["call:*Iterator*::next", "call:*::enumerate"], ["lit:0"], name="enumeration index != 0"))
         # receiver of verify is the previous element (or self), the argument the current one
         vs = call_sites_with(ctx, vr, ["*ExtendedHeader::verify"])
         ok = bool(vs)
@@ -73,7 +74,7 @@ def run(ctx):
         ex = [x for x in exit_sites(var) if x["kind"] in ("accept", "may")]
         nonempty = [x["block"] for x in ex if not holds(ctx, var, Has("len:a2", name="empty list"), [x["block"]])[0] or x["kind"] == "may"]
         require_guard(ctx, var, Has("call:*ExtendedHeader::verify_range", "a1", "a2", name="result of self.verify_range(untrusted)"), "C02.adjrange.verify", targets=[x["block"] for x in ex if x["kind"] == "may"] or None)
-        require_guard(ctx, var, Cmp(["a1", "call:*ExtendedHeader::height"], ["a2", "call:*ExtendedHeader::height"], pass_op="Eq", name="self.height()+1 == untrusted[0].height()"), "C02.adjrange.adj", targets=[x["block"] for x in ex if x["kind"] == "may"] or None)
+        require_guard(ctx, var, Cmp(["a1", "call:*ExtendedHeader::height", "lit:1"], ["a2", "call:*ExtendedHeader::height"], pass_op="Eq", name="self.height()+1 == untrusted[0].height()"), "C02.adjrange.adj", targets=[x["block"] for x in ex if x["kind"] == "may"] or None)
         empties = [x for x in ex if x["kind"] == "accept"]
         ok = all(holds(ctx, var, Has("len:a2"), [x["block"]])[0] for x in empties)
         ctx.check(ok, "C02.adjrange.empty", var.path, "the only unconditional Ok is for the empty list", key="C02.adjrange.empty")
